@@ -639,7 +639,8 @@ MAIN_IP = {"Notify": "top", "LoopExit": "top", "Gate": "notify", "SelectReturn":
 MODEL_KINDS = set(MAIN_IP.values())
 ENV_MAP = {"ClientConnect": "connect", "ClientSend": "send", "ClientClose": "leave", "Tick": "tick",
            "Term": "term", "ParentDies": "pdead", "Pick": "start", "HandleDone": "handle",
-           "JobCrash": "crash", "FinishKeep": "finish", "FinishClose": "finish",
+           "JobCrash": "crash", "FinishKeep": "finish", "FinishKeepA": "finish", "FinishKeepB": "resume",
+           "FinishClose": "finish",
            "FinishException": "finish", "Cancel": "cancel"}
 
 
@@ -719,6 +720,13 @@ class BehaviourSched(BaseSched):
             name, cc, x, st = self.steps[self.i]
             if name in ENV_MAP:
                 step = [ENV_MAP[name], cc] + ([x] if name == "ClientSend" else [])
+                if name == "FinishKeepA":
+                    step = ["finish", cc, "reg" if sim.fine else -1]   # stop just before poller.register
+                elif name == "FinishKeepB":
+                    if not sim.fine:
+                        self.i += 1
+                        continue
+                    step = ["resume", cc, -1]
                 if not sim.is_enabled(step):
                     self.fail(sim, "environment step %r not enabled in the real run" % (step,))
                     return None
